@@ -43,6 +43,26 @@ class _Return(Exception):
 
 
 @dataclass
+class _Iter:
+    """A Python iterator over a concrete list (`iter(x)` / `next(it)` / `for … in it`)."""
+
+    def __init__(self, items: list[Any]) -> None:
+        self.items = items
+        self.i = 0
+
+
+class _Regex:
+    """A compiled pattern whose text was read from the source; matched against concrete strings only."""
+
+    def __init__(self, pattern: str, flags: int = 0) -> None:
+        import re
+
+        self.rx = re.compile(pattern, flags)
+
+
+_BUILTIN_TYPES = {"str": str, "int": int, "float": float, "bool": bool, "list": list, "tuple": tuple, "dict": dict}
+
+
 class _Closure:
     node: ast.FunctionDef
     env: dict[str, Any]
@@ -134,6 +154,10 @@ class SymEval:
             return list(v)
         if isinstance(v, dict):
             return list(v)
+        if isinstance(v, _Iter):
+            rest = v.items[v.i :]
+            v.i = len(v.items)
+            return rest
         raise Unsupported(f"iteration over {type(v).__name__}")
 
     @staticmethod
@@ -170,6 +194,8 @@ class SymEval:
         if isinstance(e, ast.Name):
             if e.id in env:
                 return env[e.id]
+            if e.id in _BUILTIN_TYPES and not isinstance(self.prog.resolve(fi.module, e.id), (ClassInfo, FunctionInfo)):
+                return _BUILTIN_TYPES[e.id]
             return self._global(fi, e.id)
         if isinstance(e, ast.Attribute):
             base = self.ev(e.value, env, fi)
@@ -311,6 +337,24 @@ class SymEval:
                     return out
                 if isinstance(st.value, (ast.Tuple, ast.List)):
                     return self.ev(st.value, {}, fi)
+                if isinstance(st.value, ast.Call) and isinstance(st.value.func, ast.Attribute) and isinstance(st.value.func.value, ast.Name) and st.value.func.value.id == "re" and st.value.func.attr == "compile" and st.value.args:
+                    pat = self.ev(st.value.args[0], {}, fi)
+                    if isinstance(pat, str) and len(st.value.args) == 1 and not st.value.keywords:
+                        return _Regex(pat)
+                    raise Unsupported("re.compile with flags")
+                if isinstance(st.value, ast.Call) and isinstance(st.value.func, ast.Name) and st.value.func.id in ("frozenset", "set", "tuple") and len(st.value.args) == 1:
+                    items = self.ev(st.value.args[0], {}, fi)
+                    if isinstance(items, (list, tuple)) and not any(isinstance(i, Sym) for i in items):
+                        return frozenset(items) if st.value.func.id != "tuple" else tuple(items)
+        # a constant imported from another liquid2 module
+        target = mod.imports.get(name) if hasattr(mod, "imports") else None
+        if isinstance(target, str) and target.startswith("liquid2.") and "." in target:
+            mname, _, attr = target.rpartition(".")
+            m2 = self.prog.modules.get(mname)
+            if m2 is not None and m2 is not mod:
+                holder = next((f for f in m2.functions.values()), None)
+                if holder is not None:
+                    return self._global(holder, attr)
         # constants re-exported from another liquid2 module
         if isinstance(r, str):
             raise Unsupported(f"external name {name}")
@@ -319,6 +363,10 @@ class SymEval:
     def _isinstance(self, v: Any, c: Any) -> bool:
         cs = c if isinstance(c, (tuple, list)) else [c]
         for k in cs:
+            if isinstance(k, type):
+                if not isinstance(v, Sym) and isinstance(v, k) and not (k is int and isinstance(v, bool) and False):
+                    return True
+                continue
             if not isinstance(k, ClassInfo):
                 raise Unsupported("isinstance against a non-liquid2 class")
             if isinstance(v, Sym) and v.cls is not None and self.prog.is_subclass(v.cls, k):
@@ -348,6 +396,14 @@ class SymEval:
                         env2[a_.arg] = self.ev(d_, cl.env, cl.fi)
                 env2.update(kw)
                 return self._run(cl.node, env2, cl.fi)
+            if f.id == "iter" and len(c.args) == 1:
+                return _Iter(self._iter(self.ev(c.args[0], env, fi)))
+            if f.id == "next" and len(c.args) == 1:
+                it = self.ev(c.args[0], env, fi)
+                if isinstance(it, _Iter) and it.i < len(it.items):
+                    it.i += 1
+                    return it.items[it.i - 1]
+                raise Unsupported("next() on an exhausted or unknown iterator")
             if f.id == "str" and len(c.args) == 1:
                 return self.to_str(self.ev(c.args[0], env, fi))
             if f.id == "repr" and len(c.args) == 1:
@@ -388,6 +444,11 @@ class SymEval:
                 if isinstance(sep, str):
                     return sep.join(self.to_str(i) if not isinstance(i, str) else i for i in items)
             recv = self.ev(f.value, env, fi)
+            if isinstance(recv, _Regex) and f.attr in ("fullmatch", "match", "search") and len(c.args) == 1:
+                arg = self.ev(c.args[0], env, fi)
+                if isinstance(arg, str):
+                    return getattr(recv.rx, f.attr)(arg) is not None
+                raise Unsupported("regex applied to a non-string")
             if isinstance(recv, list) and f.attr == "append" and len(c.args) == 1:
                 recv.append(self.ev(c.args[0], env, fi))
                 return None
